@@ -264,6 +264,9 @@ def generate():
         hsing_p1_p1, _, _ = trace_singular(env, "laplace_hypersingular_singular", "p1", "p1")
         sing_dp0_dp0, _, _ = trace_singular(env, "default_scalar_singular_kernel", "dp0", "dp0")
         pot_dp1, _ = trace_potential(env, "dp1")
+        # the same potential of a density supported on element 1 only: the position in the support list (0) differs from the
+        # element index (1), as for every segment space whose support is not a leading block of the grid
+        potseg_dp1, _ = trace_potential(env, "dp1", support=(1,))
         ident_p1_dp0, _, _ = trace_sparse_identity(env, "p1", "dp0")
         reg_dp1_dp1, _, _ = trace_boundary_regular(env, "default_scalar_regular_kernel", "dp1", "dp1")
         kp = np.empty(2, dtype=object)
@@ -277,7 +280,7 @@ def generate():
     fams = {
         "regular": reg_p1_dp0, "regdp0": reg_dp0_dp0, "hyp": hyp_p1_p1, "dis": dis_p1_dp1,
         "sing": sing_p1_dp0.reshape(-1, 1), "hsing": hsing_p1_p1.reshape(-1, 1), "singdp0": sing_dp0_dp0.reshape(-1, 1),
-        "pot": pot_dp1.reshape(-1, 1), "ident": ident_p1_dp0.reshape(-1, 1),
+        "pot": pot_dp1.reshape(-1, 1), "potseg": potseg_dp1.reshape(-1, 1), "ident": ident_p1_dp0.reshape(-1, 1),
         "regdp1": reg_dp1_dp1, "mhyp": mhyp_p1_p1,
     }
     cfams = {"cregdp0": creg_dp0, "cregdp1": creg_dp1, "chyp": chyp_p1_p1}
@@ -395,6 +398,9 @@ def generate():
     for x in range(4):
         add(f"potential_matches_trace_{x}",
             f"potential {potD} 3 [0, 1] coef {x} = pot_{x}_0 {names}", f", pot_{x}_0")
+    for x in range(4):
+        add(f"potential_matches_trace_segment_{x}",
+            f"potential {potD} 3 [1] coef {x} = potseg_{x}_0 {names}", f", potseg_{x}_0")
     # (a4) sparse identity slots (p1 x dp0, elements [0,2]); the basis evaluators multiply by the multipliers
     spD = (f"({{ nq := {NQ}, w := qw, ie := ie, valT := fun e i q => p1shape i (qu q) (qv q) * mt e i, "
            f"valS := fun e j q => nb_shape_p0_discontinuous_c0_f0 (qu q) (qv q) * ms e j }} : SparseData K)")
